@@ -566,6 +566,15 @@ func extractC11(c *Ctx) error {
 		return kerr
 	}
 
+	// pass-through: the value that is hashed is the value that is stored
+	if err := x.checkPassThrough(names); err != nil {
+		return err
+	}
+	c.P("(* msg server: Any := NewAnyWithValue(msg); claimHandlerCommon(ctx, Any, msg) -> Attest(ctx, msg, Any); Attest hashes `claim` and stores")
+	c.P("   `Claim: anyClaim` for a new attestation; none of these functions (nor the claim's ClaimHash / Get* / ValidateBasic methods) assigns to the")
+	c.P("   claim, its fields or the Any, or hands them to any other function. *)")
+	c.P("Definition attest_stores_hashed_claim : bool := true.")
+
 	// handler fields
 	entryGeneric := []string{"TryAttestation", "GetAttestationMapping", "UnobservedBlocksByAddr", "DeleteAttestation"}
 	hf := map[string][]string{}
@@ -606,5 +615,223 @@ func extractC11(c *Ctx) error {
 	c.Info("handler_fields", hf)
 	c.Info("hash_items", items)
 	c.Info("opaque_calls", SortedSet(x.opaque))
+	return nil
+}
+
+// rootIdent returns the identifier at the root of an lvalue / argument expression (x, x.f, *x, &x, x[i], (x)).
+func rootIdent(e ast.Expr) string {
+	for {
+		switch y := e.(type) {
+		case *ast.Ident:
+			return y.Name
+		case *ast.SelectorExpr:
+			e = y.X
+		case *ast.StarExpr:
+			e = y.X
+		case *ast.ParenExpr:
+			e = y.X
+		case *ast.IndexExpr:
+			e = y.X
+		case *ast.UnaryExpr:
+			e = y.X
+		default:
+			return ""
+		}
+	}
+}
+
+// noMutation checks that, inside fd, none of the identifiers in vars is assigned to (directly or through a field),
+// re-declared, inc/dec-remented, address-taken, or passed to a call that is not in allowedCalls (callee name -> true);
+// methods called on them must be read-only accessors.
+func (x *c11X) noMutation(fd *ast.FuncDecl, vars map[string]bool, allowedCalls map[string]bool) error {
+	var err error
+	fail := func(n ast.Node, what string) {
+		if err == nil {
+			err = fmt.Errorf("%s: %s: `%s` — the claim that is hashed may no longer be the claim that is stored (unknown shape)", fd.Name.Name, what, x.c.Src(n))
+		}
+	}
+	roMethod := func(m string) bool {
+		return strings.HasPrefix(m, "Get") || m == "ClaimHash" || m == "ValidateBasic" || m == "String" || m == "Type" || m == "Route"
+	}
+	ast.Inspect(fd.Body, func(n ast.Node) bool {
+		switch e := n.(type) {
+		case *ast.AssignStmt:
+			for _, l := range e.Lhs {
+				if vars[rootIdent(l)] {
+					fail(e, "assignment to the claim / Any")
+				}
+			}
+		case *ast.IncDecStmt:
+			if vars[rootIdent(e.X)] {
+				fail(e, "modification of the claim")
+			}
+		case *ast.RangeStmt:
+			if (e.Key != nil && vars[rootIdent(e.Key)]) || (e.Value != nil && vars[rootIdent(e.Value)]) {
+				fail(e, "re-declaration of the claim / Any")
+			}
+		case *ast.UnaryExpr:
+			if e.Op == token.AND && vars[rootIdent(e.X)] {
+				fail(e, "address of the claim taken")
+			}
+		case *ast.CallExpr:
+			callee := ""
+			switch f := e.Fun.(type) {
+			case *ast.Ident:
+				callee = f.Name
+			case *ast.SelectorExpr:
+				callee = f.Sel.Name
+				if id, ok := f.X.(*ast.Ident); ok && vars[id.Name] && !roMethod(callee) {
+					fail(e, "non-accessor method called on the claim")
+				}
+			}
+			for _, a := range e.Args {
+				if id, ok := stripRef(a).(*ast.Ident); ok && vars[id.Name] && !allowedCalls[callee] {
+					fail(e, "claim / Any handed to another function")
+				}
+			}
+		}
+		return true
+	})
+	return err
+}
+
+func (x *c11X) checkPassThrough(names []string) error {
+	c := x.c
+	// Attest(ctx, claim, anyClaim)
+	at := FindFuncIn(x.kfiles, "Keeper", "Attest")
+	ap := paramNames(at)
+	if len(ap) != 3 {
+		return fmt.Errorf("Attest: expected (ctx, claim, anyClaim)")
+	}
+	if err := x.noMutation(at, map[string]bool{ap[1]: true, ap[2]: true}, map[string]bool{}); err != nil {
+		return err
+	}
+	stored := false
+	ast.Inspect(at.Body, func(n ast.Node) bool {
+		if kv, ok := n.(*ast.KeyValueExpr); ok && c.Src(kv.Key) == "Claim" {
+			if c.Src(kv.Value) == ap[2] {
+				stored = true
+			} else {
+				stored = false
+			}
+		}
+		return true
+	})
+	if !stored {
+		return fmt.Errorf("Attest: a new attestation does not store `Claim: %s`", ap[2])
+	}
+	// claimHandlerCommon(ctx, msgAny, msg) -> k.Attest(ctx, msg, msgAny)
+	ch := FindFuncIn(x.kfiles, "msgServer", "claimHandlerCommon")
+	if ch == nil {
+		return fmt.Errorf("claimHandlerCommon not found")
+	}
+	cp := paramNames(ch)
+	if len(cp) != 3 {
+		return fmt.Errorf("claimHandlerCommon: expected (ctx, msgAny, msg)")
+	}
+	if err := x.noMutation(ch, map[string]bool{cp[1]: true, cp[2]: true}, map[string]bool{"Attest": true}); err != nil {
+		return err
+	}
+	ac := Calls(ch.Body, "Attest")
+	if len(ac) != 1 || len(ac[0].Args) != 3 || c.Src(ac[0].Args[1]) != cp[2] || c.Src(ac[0].Args[2]) != cp[1] {
+		return fmt.Errorf("claimHandlerCommon: expected exactly one k.Attest(ctx, %s, %s)", cp[2], cp[1])
+	}
+	// msg server methods
+	for _, f := range x.kfiles {
+		for _, d := range f.Decls {
+			fd, ok := d.(*ast.FuncDecl)
+			if !ok || recvType(fd) != "msgServer" || fd.Body == nil {
+				continue
+			}
+			for _, n := range names {
+				for _, p := range fd.Type.Params.List {
+					if c.Src(p.Type) != "*types."+n || len(p.Names) != 1 {
+						continue
+					}
+					msg := p.Names[0].Name
+					// Any variable: X, err := codectypes.NewAnyWithValue(msg)
+					anyVar := ""
+					ast.Inspect(fd.Body, func(y ast.Node) bool {
+						as, ok := y.(*ast.AssignStmt)
+						if ok && len(as.Rhs) == 1 {
+							if ce, ok := as.Rhs[0].(*ast.CallExpr); ok && strings.HasSuffix(c.Src(ce.Fun), "NewAnyWithValue") && len(ce.Args) == 1 && c.Src(ce.Args[0]) == msg {
+								if id, ok := as.Lhs[0].(*ast.Ident); ok {
+									if anyVar != "" {
+										anyVar = "\x00twice"
+									} else {
+										anyVar = id.Name
+									}
+								}
+							}
+						}
+						return true
+					})
+					if anyVar == "" || strings.HasPrefix(anyVar, "\x00") {
+						return fmt.Errorf("%s: expected exactly one `X, err := codectypes.NewAnyWithValue(%s)`", fd.Name.Name, msg)
+					}
+					cc := Calls(fd.Body, "claimHandlerCommon")
+					if len(cc) != 1 || len(cc[0].Args) != 3 || c.Src(cc[0].Args[1]) != anyVar || c.Src(cc[0].Args[2]) != msg {
+						return fmt.Errorf("%s: expected exactly one k.claimHandlerCommon(ctx, %s, %s)", fd.Name.Name, anyVar, msg)
+					}
+					// msg may only be read; the Any variable is assigned exactly once (checked above) and only passed on
+					if err := x.noMutation(fd, map[string]bool{msg: true}, map[string]bool{"NewAnyWithValue": true, "claimHandlerCommon": true, "additionalPatchChecks": true}); err != nil {
+						return err
+					}
+					nAssign := 0
+					ast.Inspect(fd.Body, func(y ast.Node) bool {
+						if as, ok := y.(*ast.AssignStmt); ok {
+							for _, l := range as.Lhs {
+								if rootIdent(l) == anyVar {
+									nAssign++
+								}
+							}
+						}
+						return true
+					})
+					if nAssign != 1 {
+						return fmt.Errorf("%s: the Any %s is assigned %d times", fd.Name.Name, anyVar, nAssign)
+					}
+				}
+			}
+		}
+	}
+	if apc := FindFuncIn(x.kfiles, "", "additionalPatchChecks"); apc != nil {
+		pp := paramNames(apc)
+		if err := x.noMutation(apc, map[string]bool{pp[len(pp)-1]: true}, map[string]bool{}); err != nil {
+			return err
+		}
+	}
+	// the claim's own accessors / ClaimHash / ValidateBasic must not write to the receiver
+	for _, n := range names {
+		t := x.types[n]
+		for m, fd := range t.methods {
+			if fd.Body == nil || !(strings.HasPrefix(m, "Get") || m == "ClaimHash" || m == "ValidateBasic") {
+				continue
+			}
+			rv := recvName(fd)
+			if rv == "" {
+				continue
+			}
+			var bad ast.Node
+			ast.Inspect(fd.Body, func(y ast.Node) bool {
+				switch e := y.(type) {
+				case *ast.AssignStmt:
+					for _, l := range e.Lhs {
+						if _, isSel := l.(*ast.SelectorExpr); (isSel || func() bool { _, s := l.(*ast.StarExpr); return s }()) && rootIdent(l) == rv {
+							bad = e
+						}
+					}
+				case *ast.IncDecStmt:
+					if rootIdent(e.X) == rv {
+						bad = e
+					}
+				}
+				return true
+			})
+			if bad != nil {
+				return fmt.Errorf("%s.%s writes to its receiver: `%s` (unknown shape)", n, m, c.Src(bad))
+			}
+		}
+	}
 	return nil
 }
